@@ -49,9 +49,10 @@ Sent(t, n) == [k |-> "sent", t |-> t, n |-> n]      \* n-th transmission on the 
 RtxBusy == \E x \in Txns : txn[x].phase = "rewriting"
 
 (* PerformTransaction: insert, write, arm the timer, wait *)
+\* (Client.Close fails what is pending; it does not retire the client: a transaction started afterwards runs like any other)
 Start(t, fa) ==
   /\ ~RtxBusy
-  /\ txn[t].phase = "idle" /\ ~closed
+  /\ txn[t].phase = "idle"
   /\ last' = [a |-> "Start", t |-> t, failAt |-> fa]
   /\ IF fa = 1
        THEN \* the first write fails: the caller gets the error and nothing stays behind
@@ -66,7 +67,7 @@ Start(t, fa) ==
 (* (and can be answered or closed) while the caller is still inside conn.WriteTo                 *)
 StartSlow(t) ==
   /\ ~RtxBusy
-  /\ txn[t].phase = "idle" /\ ~closed
+  /\ txn[t].phase = "idle"
   /\ last' = [a |-> "StartSlow", t |-> t]
   /\ txn' = [txn EXCEPT ![t] = [Idle EXCEPT !.phase = "writing"]]
   /\ out' = {} /\ UNCHANGED closed
@@ -82,6 +83,12 @@ WriteDone(t) ==
        ELSE /\ txn' = [txn EXCEPT ![t] = [Done(t, txn[t].got) EXCEPT !.nsent = 1]]
             /\ out' = {Sent(t, 1), Ret(t, txn[t].got)}
   /\ UNCHANGED closed
+
+(* the slow write goes on for a while (0.6 s here): whoever holds a result for the caller keeps holding it *)
+WriteWait(t) ==
+  /\ txn[t].phase = "writing" /\ \A x \in Txns : ~Pending(x)
+  /\ last' = [a |-> "WriteWait", t |-> t, d |-> 600]
+  /\ UNCHANGED <<txn, closed>> /\ out' = {}
 
 (* handleSTUNMessage: the first response with the matching id completes the transaction *)
 \* the client has ONE inbound goroutine; while it is handing a response to a caller that is still
@@ -172,7 +179,7 @@ RtxWriteDone(t, ok) ==
 Next ==
   \/ \E t \in Txns, fa \in FailAts : Start(t, fa)
   \/ \E t \in Txns : Response(t)
-  \/ (SlowWrites /\ \E t \in Txns : StartSlow(t) \/ WriteDone(t))
+  \/ (SlowWrites /\ \E t \in Txns : StartSlow(t) \/ WriteDone(t) \/ WriteWait(t))
   \/ Foreign \/ Close \/ (\E t \in Txns : Indication(t))
   \/ \E d \in Jumps : Advance(d)
   \/ (SlowRtx # "no" /\ ((\E t \in Txns : RtxSlow(t)) \/ (\E t \in Txns, ok \in BOOLEAN : RtxWriteDone(t, ok))))
